@@ -216,6 +216,27 @@ def gen_C15(tier, rng):
         yield (f"fe.prog {push(a)};{push(b)};+;{push(c)};*;{push(a)};{push(c)};*;{push(b)};{push(c)};*;+;=", "law.distrib")
         yield (f"fe.prog {push(a)};{push(b)};*;{push(b)};{push(a)};*;=", "law.comm")
         yield (f"fe.prog {push(a)};d;*;{push(a)};s;=;r1;=", "law.square")
+    # values reached through DIFFERENT computation paths (non-trivial limb representations of 0, 1, small values, p-1):
+    # the canonical encoding and the zero / sign tests must not depend on the representation
+    for _ in range(120 if quick else 2500):
+        a, b = (rng.choice(sp) if rng.random() < 0.3 else rand_value(rng) for _ in range(2))
+        A, B = push(a), push(b)
+        zero_paths = [
+            f"{A};{B};+;{B};{A};+;-",                                   # (a+b) - (b+a)
+            f"{A};d;+;{A};+;{A};{push(3)};*;-",                         # (a+a+a) - 3a
+            f"{A};{B};+;s;{A};s;-;{B};s;-;{A};{B};*;d;+;-",             # (a+b)^2 - a^2 - b^2 - 2ab
+            f"{A};{B};*;{B};{A};*;-",                                   # ab - ba
+            f"{A};~;{A};+",                                             # (-a) + a
+            f"{A};{B};-;{B};{A};-;+",                                   # (a-b) + (b-a)
+            f"{A};s;{A};d;*;-",                                         # a^2 - a*a
+            f"{A};q;{A};s;d;+;-",                                       # 2a^2 - (a^2 + a^2)
+        ]
+        z = rng.choice(zero_paths)
+        yield (f"fe.prog {z};t;z;n", "repr.zero")
+        k = rng.choice([1, 2, 18, 19, 20, P - 1, P - 2, P - 19, (P - 1) // 2])
+        yield (f"fe.prog {z};{push(k)};+;t;z;n", "repr.small")
+        yield (f"fe.prog {z};{push(k)};x;-;t;z;n", "repr.small")
+        yield (f"fe.prog {z};c0;=;{z};{push(k)};+;{push(k)};=", "repr.eq")
     # expression programs of depth <= 4 inside the discipline
     for _ in range(600 if quick else 12000):
         toks, _ = gen_expr(rng, rng.choice([2, 3, 4]), sp)
